@@ -1,0 +1,26 @@
+// Copyright 2022-2026 Sauce Labs Inc., all rights reserved.
+//
+// This Source Code Form is subject to the terms of the Mozilla Public
+// License, v. 2.0. If a copy of the MPL was not distributed with this
+// file, You can obtain one at https://mozilla.org/MPL/2.0/.
+
+//go:build verif
+
+package forwarder
+
+import (
+	"context"
+	"net"
+)
+
+// VerifListen and VerifDial, when set, replace the listen and dial system calls of Listener and Dialer.
+// They exist only in builds with the verif tag and let a model-checking harness run the real listener
+// and dialer stacks on an in-memory network.
+var (
+	VerifListen func(address string) (net.Listener, error)
+	VerifDial   func(ctx context.Context, network, address string) (net.Conn, error)
+)
+
+func verifListen() func(address string) (net.Listener, error) { return VerifListen }
+
+func verifDial() dialContextFunc { return VerifDial }
